@@ -11,14 +11,15 @@
    validated, like everything else here, by the byte-for-byte correspondence.
 
    Lexical context.  linter.LexMap classifies every byte of the WHOLE text in one pass (state carried across
-   line breaks): 0 code, 1 string literal / quoted identifier, 2 block comment, 3 line comment.  All bytes of
-   a character have the class of its first byte (the delimiters are ASCII), so the model classifies
+   line breaks): 0 code, 1 string literal ('...', '''...''', $tag$...$tag$) / quoted identifier, 2 block comment,
+   3 line comment.  All bytes of a character have the class of its first byte, so the model classifies
    characters: [lex].  A rule sees a line as the list of its characters paired with their classes
    ([clines]): it may re-layout or re-case code (class 0) only.
 
-   The Unicode classes (unicode.IsLetter / IsDigit / IsSpace), the runes whose unicode.ToUpper image is an
-   ASCII letter and the keyword set of L007 are parameters of the model; lib/c17.py regenerates them from
-   the toolchain / the source into Gen/LintTables.v on every run. *)
+   The Unicode classes (unicode.IsLetter / IsDigit / IsSpace), the characters that start / continue the tag of a
+   dollar-quoted string, the runes whose unicode.ToUpper image is an ASCII letter and the keyword set of L007
+   are parameters of the model; lib/c17.py regenerates them from the toolchain / the source / the scanner
+   into Gen/LintTables.v on every run. *)
 From Coq Require Import List NArith Bool Arith.
 Import ListNotations.
 Local Open Scope N_scope.
@@ -140,7 +141,13 @@ Inductive lst :=
 | SLine                 (* lexInLineComment *)
 | SBlockOpen            (* on the '*' of the opening of a block comment *)
 | SBlock                (* lexInBlock *)
-| SBlockClose.          (* on the '/' of the closing of a block comment *)
+| SBlockClose           (* on the '/' of the closing of a block comment *)
+| SSkip (n : nat) (a : lst)   (* the loop has recognised a delimiter by looking ahead and jumps over it: n more of its
+                                 characters follow (all class 1), then the scanner is in state a *)
+| STri (run : nat)      (* lexInTriple: inside '''...'''; run = the apostrophes just read in a row *)
+| SDol (tag : list ch) (m : option (list ch)).
+                        (* lexInDollar: inside $tag$...; m = None: nothing of the closing delimiter is matched;
+                           m = Some r: its '$' and the tag up to r are matched (r, then '$', are still to come) *)
 
 Definition next_is (n : N) (t : list ch) : bool := match t with d :: _ => cp d =? n | [] => false end.
 (* quoteKind: the typographic single quotes U+2018 U+2019 and the guillemets U+00AB U+00BB count as the apostrophe,
@@ -149,35 +156,82 @@ Definition nq (n : N) : N :=
   if (n =? 8216) || (n =? 8217) || (n =? 171) || (n =? 187) then 39
   else if (n =? 8220) || (n =? 8221) then 34 else n.
 Definition is_quote (c : ch) : bool := (nq (cp c) =? 39) || (nq (cp c) =? 34) || (cp c =? 96).
+(* the next character is a quote of the apostrophe kind; the next two characters are apostrophes *)
+Definition next_q39 (t : list ch) : bool := match t with d :: _ => nq (cp d) =? 39 | [] => false end.
+Definition next2_39 (t : list ch) : bool := match t with d :: e :: _ => (cp d =? 39) && (cp e =? 39) | _ => false end.
+(* r == next && size == nsize *)
+Definition same_ch (c x : ch) : bool := (cp c =? cp x) && (width c =? width x)%nat.
 
-(* one step of the scanner on character c followed by nx: (class of c, state after c).  A backslash is an
-   ordinary character; a doubled quote closes the construct and re-opens it at once. *)
-Definition lstep (st : lst) (c : ch) (nx : list ch) : N * lst :=
-  match st with
-  | SCode =>
-      if is_quote c then (1, SLit (nq (cp c)))
-      else if (cp c =? 45) && next_is 45 nx then (3, SLine)
-      else if (cp c =? 47) && next_is 42 nx then (2, SBlockOpen)
-      else (0, SCode)
-  | SLit q => (1, if nq (cp c) =? q then SCode else SLit q)
-  | SLine => if is_nl c then (0, SCode) else (3, SLine)
-  | SBlockOpen => (2, SBlock)
-  | SBlock => if (cp c =? 42) && next_is 47 nx then (2, SBlockClose) else (2, SBlock)
-  | SBlockClose => (2, SCode)
+(* lexInDollar, one character: the closing delimiter is '$' tag '$'; a '$' occurs in it only as its first and its last
+   character, so a character that does not continue the match leaves nothing matched, or its own '$' *)
+Definition dol_step (tag : list ch) (m : option (list ch)) (c : ch) : lst :=
+  let miss := if cp c =? 36 then SDol tag (Some tag) else SDol tag None in
+  match m with
+  | None => miss
+  | Some [] => if same_ch c (asc 36) then SCode else miss
+  | Some (x :: r) => if same_ch c x then SDol tag (Some r) else miss
   end.
 
-Fixpoint lex (st : lst) (l : list ch) : list N :=
-  match l with
-  | [] => []
-  | c :: t => fst (lstep st c t) :: lex (snd (lstep st c t)) t
-  end.
-Fixpoint lex_end (st : lst) (l : list ch) : lst :=
-  match l with
-  | [] => st
-  | c :: t => lex_end (snd (lstep st c t)) t
-  end.
-(* m[len(text)]: the context at the end of the text is code when no literal or block comment is open *)
-Definition end_code (st : lst) : bool := match st with SCode | SLine => true | _ => false end.
+Section Lint.
+  (* unicode.IsLetter(r) || r == '_'  and  unicode.IsLetter(r) || unicode.IsDigit(r) || unicode.In(r, Mn, Mc, Pc):
+     the characters that start / continue the tag of a dollar-quoted string *)
+  Variables is_idstart is_idpart : N -> bool.
+
+  (* dollarOpener: the tag when the characters after a '$' are  tag '$'  (the loop of dollarOpener) and the first of
+     them is a '$' or starts an identifier *)
+  Fixpoint scan_tag (nx : list ch) : option (list ch) :=
+    match nx with
+    | [] => None
+    | c :: t => if cp c =? 36 then Some []
+                else if is_idpart (cp c) then match scan_tag t with Some g => Some (c :: g) | None => None end
+                else None
+    end.
+  Definition dollar_tag (nx : list ch) : option (list ch) :=
+    match nx with
+    | [] => None
+    | c :: _ => if (cp c =? 36) || is_idstart (cp c) then scan_tag nx else None
+    end.
+
+  (* one step of the scanner on character c followed by nx: (class of c, state after c).  A backslash is an ordinary
+     character; a doubled quote closes a quoted identifier and re-opens it at once, in a string literal the two quotes
+     are read together. *)
+  Definition lstep (st : lst) (c : ch) (nx : list ch) : N * lst :=
+    match st with
+    | SCode =>
+        if (cp c =? 39) && next2_39 nx then (1, SSkip 2 (STri 0))
+        else if is_quote c then (1, SLit (nq (cp c)))
+        else if (cp c =? 45) && next_is 45 nx then (3, SLine)
+        else if (cp c =? 47) && next_is 42 nx then (2, SBlockOpen)
+        else if cp c =? 36 then
+          match dollar_tag nx with
+          | Some tag => (1, SSkip (S (length tag)) (SDol tag None))
+          | None => (0, SCode)
+          end
+        else (0, SCode)
+    | SLit q =>
+        if nq (cp c) =? q then (if (q =? 39) && next_q39 nx then (1, SSkip 1 (SLit q)) else (1, SCode))
+        else (1, SLit q)
+    | SLine => if is_nl c then (0, SCode) else (3, SLine)
+    | SBlockOpen => (2, SBlock)
+    | SBlock => if (cp c =? 42) && next_is 47 nx then (2, SBlockClose) else (2, SBlock)
+    | SBlockClose => (2, SCode)
+    | SSkip n a => (1, match n with S (S k) => SSkip (S k) a | _ => a end)
+    | STri run => (1, if cp c =? 39 then (if (run =? 2)%nat then SCode else STri (S run)) else STri 0)
+    | SDol tag m => (1, dol_step tag m c)
+    end.
+
+  Fixpoint lex (st : lst) (l : list ch) : list N :=
+    match l with
+    | [] => []
+    | c :: t => fst (lstep st c t) :: lex (snd (lstep st c t)) t
+    end.
+  Fixpoint lex_end (st : lst) (l : list ch) : lst :=
+    match l with
+    | [] => st
+    | c :: t => lex_end (snd (lstep st c t)) t
+    end.
+  (* m[len(text)]: the context at the end of the text is code when no literal or block comment is open *)
+  Definition end_code (st : lst) : bool := match st with SCode | SLine => true | _ => false end.
 
 (* a classified character, a classified text *)
 Definition cc := (ch * N)%type.
@@ -240,7 +294,6 @@ Definition eff (first : N) (pre : list (bool * list cc)) : N :=
 Definition l002_defect (first : N) (pre : list (bool * list cc)) (l : list cc) : Prop :=
   ikind l = 3 \/ ((ikind l = 1 \/ ikind l = 2) /\ eff first pre <> 0 /\ eff first pre <> ikind l).
 
-Section Lint.
   Variables is_letter is_digit is_space : N -> bool.
   Variable upper_ascii : N -> option N.
   Variable keywords : list (list N).
@@ -537,6 +590,38 @@ Definition wft (t : list ch) : Prop := forall c, In c t -> wfc c.
 Definition ascii_bytes (s : list N) : bool := forallb (fun b => b <? 128) s.
 Definition onbytes (f : list ch -> list ch) (s : list N) : list N := encode (f (decode s)).
 
+(* the string forms that one character of look-behind cannot delimit, as the tokenizer reads them (its own loops, written
+   with look-ahead): what the scanner must agree with *)
+Definition ap (c : ch) : bool := cp c =? 39.
+Definition starts1 (l : list ch) : bool := match l with a :: _ => ap a | _ => false end.
+Definition starts2q (l : list ch) : bool := match l with a :: b :: _ => ap a && ap b | _ => false end.
+Definition starts3 (l : list ch) : bool := match l with a :: b :: c :: _ => ap a && ap b && ap c | _ => false end.
+(* readTripleQuotedString after the opening ''': the number of characters up to and including the first three
+   apostrophes in a row; the whole text when there are none *)
+Fixpoint tri_len (l : list ch) : nat :=
+  match l with
+  | [] => 0%nat
+  | _ :: t => if starts3 l then 3%nat else S (tri_len t)
+  end.
+(* does the text begin with the characters k (compared as the scanner compares a character with one of the delimiter)? *)
+Fixpoint pmatch (k l : list ch) : bool :=
+  match k, l with
+  | [], _ => true
+  | x :: k', c :: l' => same_ch c x && pmatch k' l'
+  | _ :: _, [] => false
+  end.
+(* the tokenizer's loop for a dollar-quoted string after its opening delimiter cl: the number of characters up to and
+   including the first repetition of cl; the whole text when there is none *)
+Fixpoint dol_len (cl l : list ch) : nat :=
+  match l with
+  | [] => 0%nat
+  | _ :: t => if pmatch cl l then length cl else S (dol_len cl t)
+  end.
+Definition dl : ch := asc 36.
+(* classes of a text that is m characters of a literal followed by code *)
+Definition lit_code (is_idstart is_idpart : N -> bool) (m : nat) (l : list ch) : list N :=
+  repeat 1 m ++ lex is_idstart is_idpart SCode (skipn m l).
+
 (* L010: what the rule names.  r is a maximal run of two or more code spaces of the classified line l, after pre *)
 Definition cspace_run (l pre r post : list cc) : Prop :=
   l = pre ++ r ++ post /\ forallb cspace r = true /\ (2 <= length r)%nat /\
@@ -566,6 +651,7 @@ Section SpecWords.
 End SpecWords.
 
 Section Spec.
+  Variables is_idstart is_idpart : N -> bool.
   Variable is_space : N -> bool.
   Variable upper_ascii : N -> option N.
 
@@ -618,11 +704,14 @@ Section Spec.
         | fl2 :: _ => RD (snd fl) (scons (if fst fl2 then VW else VL nlc) (RDL r))
         end
     end.
-  Definition reading (t : list ch) : list vtok := strip_lead (RDL (clines t)).
+  Definition reading (t : list ch) : list vtok := strip_lead (RDL (clines is_idstart is_idpart t)).
 
   (* the reading of a text as code only (every character of class 0) *)
   Definition R (l : list ch) (Z : list vtok) : list vtok := fold_right (fun c z => scons (vt c) z) Z l.
 End Spec.
+
+(* the characters of literals, quoted identifiers and comments in a reading *)
+Definition lit_chars (r : list vtok) : list ch := flat_map (fun v => match v with VL c => [c] | _ => [] end) r.
 
 (* ------------------------------------------------------------------------------------------------ *)
 (* table lookups used to instantiate the parameters *)
